@@ -50,6 +50,18 @@ Definition ind (b : bool) (x : Q) : Q := if b then x else 0.
 Definition msum (n : nat) (c : nat -> nat) (i : nat) (f : nat -> Q) : Q :=
   sumn n (fun j => ind (Nat.eqb (c j) i) (f j)).
 
+Lemma sumn_single m k (f : nat -> Q) :
+  sumn m (fun j => ind (Nat.eqb j k) (f j)) == if Nat.ltb k m then f k else 0.
+Proof.
+  induction m as [|m IH]; [reflexivity|].
+  change (sumn (S m) (fun j => ind (Nat.eqb j k) (f j)))
+    with (sumn m (fun j => ind (Nat.eqb j k) (f j)) + ind (Nat.eqb m k) (f m)).
+  rewrite IH. destruct (Nat.eqb_spec m k) as [->|Hne].
+  - rewrite Nat.ltb_irrefl. replace (k <? S k)%nat with true by (symmetry; apply Nat.ltb_lt; lia).
+    unfold ind. ring.
+  - unfold ind. destruct (Nat.ltb_spec k m); destruct (Nat.ltb_spec k (S m)); try lia; ring.
+Qed.
+
 (* ---- equivalence closure of the processed edges ---- *)
 Inductive eqclos (E : list edge) : nat -> nat -> Prop :=
 | ec_refl x : eqclos E x x
@@ -92,28 +104,17 @@ Section Proofs.
 
   Lemma inv_init : Inv [] st0.
   Proof.
-    split; simpl.
-    - intros j k. split.
+    split.
+    - intros j k. cbn [cl init_state]. split.
       + intros ->. apply ec_refl.
       + intros H. induction H as [x|x y _ IH|x y z _ IH1 _ IH2|kl kh ax []]; congruence.
-    - intros k Hk. unfold msum. simpl.
-      assert (H : forall m, sumn m (fun j => ind (Nat.eqb j k) (vol0 j)) == if Nat.ltb k m then vol0 k else 0).
-      { induction m as [|m IH]; simpl; [reflexivity|]. rewrite IH.
-        destruct (Nat.eqb_spec m k) as [->|Hne].
-        - rewrite Nat.ltb_irrefl. replace (k <? S k)%nat with true by (symmetry; apply Nat.ltb_lt; lia).
-          simpl. ring.
-        - simpl. destruct (Nat.ltb_spec k m); destruct (Nat.ltb_spec k (S m)); try lia; ring. }
-      rewrite H. replace (k <? n)%nat with true by (symmetry; apply Nat.ltb_lt; exact Hk). reflexivity.
-    - intros k a Hk. unfold msum, contrib. simpl.
-      assert (H : forall m (f : nat -> Q), sumn m (fun j => ind (Nat.eqb j k) (f j)) == if Nat.ltb k m then f k else 0).
-      { intros m f. induction m as [|m IH]; simpl; [reflexivity|]. rewrite IH.
-        destruct (Nat.eqb_spec m k) as [->|Hne].
-        - rewrite Nat.ltb_irrefl. replace (k <? S k)%nat with true by (symmetry; apply Nat.ltb_lt; lia).
-          simpl. ring.
-        - simpl. destruct (Nat.ltb_spec k m); destruct (Nat.ltb_spec k (S m)); try lia; ring. }
-      rewrite (H n (fun j => vol0 j * (pos0 j a + inject_Z (0 * N a)))), (H n vol0).
+    - intros k Hk. unfold msum. cbn [cl mvol init_state].
+      rewrite (sumn_single n k vol0).
+      replace (k <? n)%nat with true by (symmetry; apply Nat.ltb_lt; exact Hk). reflexivity.
+    - intros k a Hk. unfold msum, contrib. cbn [cl mvol mpos off init_state].
+      rewrite !sumn_single.
       replace (k <? n)%nat with true by (symmetry; apply Nat.ltb_lt; exact Hk).
-      simpl. unfold inject_Z. ring.
+      replace (0 * N a)%Z with 0%Z by ring. unfold inject_Z. ring.
   Qed.
 
   (* members of the merged cluster = members of il plus members of ih *)
@@ -215,18 +216,20 @@ Section Proofs.
                      == msum n cl' i (fun j => if Nat.eqb (cl st j) ih
                                                then contrib st a j + vol0 j * inject_Z (shift a * N a)
                                                else contrib st a j)).
-        { intros i. unfold msum. apply sumn_ext. intros j _. unfold contrib. simpl.
+        { intros i. unfold msum. apply sumn_ext. intros j _. unfold contrib, st'. cbn [off].
           destruct (Nat.eqb (cl st j) ih); [|reflexivity].
-          destruct (Nat.eqb (cl' j) i); simpl; [|reflexivity].
-          rewrite Z.mul_add_distr_r, inject_Z_plus. ring. }
+          destruct (Nat.eqb (cl' j) i); unfold ind; [|reflexivity].
+          unfold shift. rewrite Z.mul_add_distr_r, inject_Z_plus. ring. }
         assert (Hsplit : msum n (cl st) ih (fun j => contrib st a j + vol0 j * inject_Z (shift a * N a))
                          == msum n (cl st) ih (contrib st a) + inject_Z (shift a * N a) * vh).
         { rewrite Hvh. unfold msum. rewrite <- sumn_scale, <- sumn_plus. apply sumn_ext. intros j _.
-          destruct (Nat.eqb (cl st j) ih); simpl; ring. }
+          destruct (Nat.eqb (cl st j) ih); unfold ind; ring. }
+        assert (Hpl : mpos st il a * vl == msum n (cl st) il (contrib st a)) by (apply (Hpos kl a Hkl)).
+        assert (Hph : mpos st ih a * vh == msum n (cl st) ih (contrib st a)) by (apply (Hpos kh a Hkh)).
         assert (Hmerged : (mpos st il a * vl + (mpos st ih a + inject_Z (shift a * N a)) * vh) / (vl + vh) * (vl + vh)
                           == msum n cl' il (contrib st' a)).
         { rewrite Hc. unfold cl'. rewrite msum_merge by (exact Hne || (intros; right; exact I)).
-          rewrite Hsplit. rewrite <- (Hpos kl a Hkl), <- (Hpos kh a Hkh). fold il ih vl vh.
+          rewrite Hsplit. rewrite <- Hpl, <- Hph.
           field. lra. }
         destruct (Nat.eqb_spec (cl st k) ih) as [Ek|Ek].
         * rewrite Nat.eqb_refl. exact Hmerged.
@@ -250,7 +253,7 @@ Section Proofs.
 
   (* ---- consequences, stated for the final state ---- *)
   Lemma eqclos_rev E x y : eqclos (rev E) x y <-> eqclos E x y.
-  Proof. split; apply eqclos_mono; intros e He; [apply in_rev in He|apply in_rev]; assumption. Qed.
+  Proof. split; apply eqclos_mono; intros e He; [apply in_rev; exact He|apply in_rev in He; exact He]. Qed.
 
   Theorem merge_classes es : edges_ok es -> forall j k,
     cl (merge_all N st0 es) j = cl (merge_all N st0 es) k <-> eqclos es j k.
